@@ -1186,4 +1186,6 @@ def parts(tier):
     ]
     for fn in EXTRA_PARTS:
         ret.extend(fn(tier))
+    from vt.props import c19_files   # part that needs generated LIS files
+    ret.extend(c19_files.parts(tier))
     return ret
